@@ -87,12 +87,13 @@ AddSet(g, kind, k, members, name) ==            \* kind 0 = node set, 1 = elemen
      IF ~({members[i] : i \in 1..Len(members)} \subseteq universe) \/ geoms[g].mesh = "none"
      THEN lastOk' = FALSE /\ UNCHANGED <<geoms, sets, vars, dim>>
      ELSE sets' = [sets EXCEPT ![g] = Append(@, <<kind, name, members>>)] /\ lastOk' = TRUE /\ UNCHANGED <<geoms, vars, dim>>
-AddVariable(st, g, v, k) ==                      \* v in {"DISPLACEMENT" (nodal), "STRESS_CAUCHY" (element nodal), "UNKNOWN"}
+AddVariable(st, g, v, k) ==                      \* v in {"DISPLACEMENT" (nodal), "STRESS_CAUCHY" (element nodal), "UNKNOWN" (no columns/location given),
+                                                 \*        "TEMP" (name unknown to pyLife, given with explicit column names and location NODE)}
   /\ hist' = Append(hist, <<"add_variable", st, g, v, k>>)
   /\ IF geoms[g].mesh = "none" \/ (\E x \in vars : x.st = st /\ x.g = g /\ x.v = v) \/ v = "UNKNOWN"
      THEN lastOk' = FALSE /\ UNCHANGED <<geoms, sets, vars, dim>>
      ELSE /\ vars' = vars \cup {[st |-> st, g |-> g, v |-> v, mesh |-> k,
-                                 data |-> IF v = "DISPLACEMENT" THEN NodalI(k) ELSE ElementNodalI(k)]}
+                                 data |-> IF v \in {"DISPLACEMENT", "TEMP"} THEN NodalI(k) ELSE ElementNodalI(k)]}
           /\ lastOk' = TRUE /\ UNCHANGED <<geoms, sets, dim>>
 Next ==
   /\ Len(hist) < MaxDepth
@@ -101,7 +102,7 @@ Next ==
             \E members \in {<<SortedSeq(IF kind = 0 THEN NodeIds(k) ELSE ElemIds(k))[1]>>,
                             IF kind = 0 THEN <<LastOf(SortedSeq(NodeIds(k))), SortedSeq(NodeIds(k))[1]>> ELSE <<LastOf(SortedSeq(ElemIds(k)))>>,
                             <<999>>} : AddSet(g, kind, k, members, IF kind = 0 THEN "ns" ELSE "es")
-     \/ \E st \in {"s1", "s2"}, g \in GeomNames, v \in {"DISPLACEMENT", "STRESS_CAUCHY", "UNKNOWN"} :
+     \/ \E st \in {"s1", "s2"}, g \in GeomNames, v \in {"DISPLACEMENT", "STRESS_CAUCHY", "UNKNOWN", "TEMP"} :
             LET k == IF geoms[g].mesh = "none" THEN CHOOSE m \in MeshIds : TRUE ELSE geoms[g].mesh IN AddVariable(st, g, v, k)
 Spec == Init /\ [][Next]_vs
 
